@@ -1289,3 +1289,20 @@ def _map_retain(it, a, c):
     for p in m.pairs:
         if it.ctx.branch(it.call_closure(a[1], [Ref(p, 0), Ref(p, 1)]), 'retain'): keep.append(p)
     m.pairs[:] = keep; return UNIT()
+
+
+def _num_of(v):
+    v = deref(v)
+    while isinstance(v, Agg) and len(v.fields) == 1: v = deref(v.fields[0])
+    if isinstance(v, bool): return int(v)
+    if isinstance(v, int) or is_sym(v): return v
+    raise Unsupported('ordering of %r' % (v,))
+
+
+for _op in ('lt', 'le', 'gt', 'ge'):
+    def _mk_ord(op):
+        def f(it, a, c):
+            x, y = _num_of(a[0]), _num_of(a[1])
+            return {'lt': x < y, 'le': x <= y, 'gt': x > y, 'ge': x >= y}[op]
+        return f
+    DEF_MODELS['std::cmp::PartialOrd::' + _op] = _mk_ord(_op)
